@@ -42,7 +42,7 @@ def patch_of(seed):
 
 def one(job):
     seed, checks, tier, ncpu = job
-    base = os.path.join(ROOT, seed)
+    base = os.path.join(ROOT, seed if KEEP else "%s.%d" % (seed, os.getpid()))
     wt = os.path.join(base, "repo")
     vc = os.path.join(base, "verif")
     sh("git -C %s worktree remove --force %s" % (REPO, wt))
